@@ -395,3 +395,8 @@ impl Pool {
         Ok(())
     }
 }
+
+// Verification hook: only the Kani compiler sets `cfg(kani)`; the harnesses live in /verif.
+#[cfg(kani)]
+#[path = "/verif/harness/incrate/worker.rs"]
+mod verif_kani;
